@@ -676,6 +676,12 @@ func run(a hx.RunArgs) error {
 		}
 	}
 
+	// --- the host-pattern matcher, logins over pattern-rich account lists, histories of account changes
+	// (own random streams: the streams above stay the same sample)
+	hostPatternStream(out, a)
+	patternLoginStream(out, a)
+	historyStream(out, a)
+
 	// --- wire
 	w, err := startWire()
 	if err != nil {
